@@ -11,17 +11,21 @@ class _Cur:
     world = None
 
 class JSONSerde:
-    """The example from the Client docstring."""
+    """The example from the Client docstring (flags 1 = str, 2 = JSON); the flag numbers are the application's
+    choice, so a variant uses 0 - the value memcached shows for "no flags" - for its JSON items."""
+
+    def __init__(self, f_str=1, f_json=2):
+        self.f_str, self.f_json = f_str, f_json
 
     def serialize(self, key, value):
         if isinstance(value, str):
-            return value, 1
-        return json.dumps(value), 2
+            return value, self.f_str
+        return json.dumps(value), self.f_json
 
     def deserialize(self, key, value, flags):
-        if flags == 1:
+        if flags == self.f_str:
             return value
-        if flags == 2:
+        if flags == self.f_json:
             return json.loads(value)
         raise Exception("Unknown flags for value: {}".format(flags))
 
